@@ -217,3 +217,66 @@ Definition public_classes : list string := map fst ctor_style ++ ["MagpyMarkers"
 
 (* ---------------------------------------------------------------- constructor forwarding *)
 Definition ctor_forwards_style : bool := forallb (fun c => fst (snd c)) ctor_style.
+
+(* ---------------------------------------------------------------- the schema-wide checks (all leaves, all classes) *)
+Definition two (k : vkind) : list val := firstn 2 (sample_vals k).
+
+Definition lw_all : bool :=
+  forallb (fun cs =>
+    forallb (fun l =>
+      shadowed (snd cs) (fst (fst l)) ||
+      forallb (fun v1 => forallb (fun v2 => forallb (fun n1 => forallb (fun n2 =>
+        lw_holds (snd cs) (fst (fst l)) v1 v2 n1 n2)
+        (notations (fst (fst l)))) (notations (fst (fst l)))) (two (snd (fst l)))) (two (snd (fst l))))
+      (sleaves (snd cs))) style_classes.
+
+Definition reject_all : bool :=
+  forallb (fun cs =>
+    forallb (fun l =>
+      forallb (fun n =>
+        rejects_name (snd cs) (fst (fst l)) n &&
+        forallb (fun v => rejects_value (snd cs) (fst (fst l)) v n) (bad_vals (snd (fst l))))
+        (notations (fst (fst l))))
+      (sleaves (snd cs))) style_classes.
+
+Definition literal_all : bool :=
+  forallb (fun l => literal_holds (fst (fst l)) (snd (fst l))) (sleaves defaults_schema).
+
+Definition reset_all : bool :=
+  forallb (fun l =>
+    negb (in_literal (fst (fst l))) || shadowed defaults_schema (fst (fst l)) ||
+    forallb (fun v => forallb (fun n => reset_holds (fst (fst l)) v n) (notations_coarse (fst (fst l))))
+            (two (snd (fst l))))
+    (sleaves defaults_schema).
+
+(* outside the DEFAULTS literal reset() restores NOTHING: every such leaf keeps a value assigned to it *)
+Definition reset_none_outside : bool :=
+  forallb (fun l =>
+    in_literal (fst (fst l)) ||
+    forallb (fun v => negb (reset_holds (fst (fst l)) v NAttr)) (two (snd (fst l))))
+    (sleaves defaults_schema).
+
+Definition sv (k : vkind) (i : nat) : val := nth (i mod List.length (sample_vals k)) (sample_vals k) (VInt 0).
+
+Definition prec_variants : list (bool * notation) := [(false, NAttr); (true, NUnder 0)].
+
+Definition prec_all : bool :=
+  forallb (fun cls =>
+    forallb (fun l =>
+      negb (prec_leaf (snd (fst l)) (fst (fst l))) || snd l || shadowed (class_schema cls) (fst (fst l)) ||
+      forallb (fun src => forallb (fun nv =>
+        prec_holds cls (fst (fst l)) (sv (snd (fst l)) 0) (sv (snd (fst l)) 1) (sv (snd (fst l)) 2)
+                   (sv (snd (fst l)) 3) src (fst nv) (snd nv)) prec_variants) all_sources)
+      (sleaves (class_schema cls))) public_classes.
+
+Fixpoint all_names (s : schema) : list string :=
+  match s with
+  | SObj _ _ _ _ props =>
+      (fix go (ps : list (string * schema)) : list string :=
+         match ps with [] => [] | (n, sp) :: r => n :: all_names sp ++ go r end) props
+  | _ => []
+  end.
+
+Definition separator_free : bool :=
+  forallb (fun cs => forallb (fun n => negb (has_char us n)) (all_names (snd cs)))
+          (("defaults", defaults_schema) :: style_classes).
